@@ -324,7 +324,6 @@ func (vc *FnVC) equal(t types.Type, a, b Term, pos token.Pos) Term {
 	case *types.Interface:
 		if a != "anil" && b != "anil" {
 			// comparing two interface values panics if both hold the same uncomparable type
-			vc.e.decl("uncomparable", "(declare-fun uncomparable (Int) Bool)")
 			vc.safety("ifacecmp", not(and(app("=", app("tagof", a), app("tagof", b)), app("uncomparable", app("tagof", a)))), pos, "comparing uncomparable dynamic types")
 		}
 	}
